@@ -327,7 +327,10 @@ struct Regs {
     near: Option<u64>,
 }
 
-fn context_section(arch: Arch, r: &Regs, rng: &mut Xoshiro) -> Section {
+fn context_section(arch: Arch, r: &Regs, rng: &mut Xoshiro, be: bool) -> Section {
+    let se = if be { scroll::BE } else { scroll::LE };
+    let p32 = |v: u32| if be { v.to_be_bytes() } else { v.to_le_bytes() };
+    let p64 = |v: u64| if be { v.to_be_bytes() } else { v.to_le_bytes() };
     let mut bytes: Vec<u8>;
     match arch {
         Arch::X86 => {
@@ -340,7 +343,7 @@ fn context_section(arch: Arch, r: &Regs, rng: &mut Xoshiro) -> Section {
             c.esi = rng.next_u32();
             c.edi = rng.next_u32();
             bytes = vec![0u8; 716];
-            let n = bytes.pwrite_with(c, 0, scroll::LE).expect("ctx");
+            let n = bytes.pwrite_with(c, 0, se).expect("ctx");
             bytes.truncate(n);
         }
         Arch::Amd64 => {
@@ -376,7 +379,7 @@ fn context_section(arch: Arch, r: &Regs, rng: &mut Xoshiro) -> Section {
                 c.r13 = o(7);
             }
             bytes = vec![0u8; 1232];
-            let n = bytes.pwrite_with(c, 0, scroll::LE).expect("ctx");
+            let n = bytes.pwrite_with(c, 0, se).expect("ctx");
             bytes.truncate(n);
         }
         Arch::Arm => {
@@ -389,7 +392,7 @@ fn context_section(arch: Arch, r: &Regs, rng: &mut Xoshiro) -> Section {
             c.iregs[14] = r.lr as u32;
             c.iregs[4] = rng.next_u32();
             bytes = vec![0u8; 512];
-            let n = bytes.pwrite_with(c, 0, scroll::LE).expect("ctx");
+            let n = bytes.pwrite_with(c, 0, se).expect("ctx");
             bytes.truncate(n);
         }
         Arch::Arm64Old => {
@@ -401,7 +404,7 @@ fn context_section(arch: Arch, r: &Regs, rng: &mut Xoshiro) -> Section {
             c.iregs[30] = r.lr;
             c.iregs[19] = rng.next_u64();
             bytes = vec![0u8; 1024];
-            let n = bytes.pwrite_with(c, 0, scroll::LE).expect("ctx");
+            let n = bytes.pwrite_with(c, 0, se).expect("ctx");
             bytes.truncate(n);
         }
         Arch::Mips => {
@@ -413,29 +416,29 @@ fn context_section(arch: Arch, r: &Regs, rng: &mut Xoshiro) -> Section {
             c.iregs[31] = r.lr & 0xffff_ffff;
             c.iregs[16] = rng.next_u32() as u64;
             bytes = vec![0u8; 1024];
-            let n = bytes.pwrite_with(c, 0, scroll::LE).expect("ctx");
+            let n = bytes.pwrite_with(c, 0, se).expect("ctx");
             bytes.truncate(n);
         }
         Arch::Ppc => {
             use scroll::ctx::SizeWith;
             bytes = vec![0u8; md::CONTEXT_PPC::size_with(&scroll::LE)];
-            bytes[0..4].copy_from_slice(&(0x2000_0000u32 | 0x3).to_le_bytes());
-            bytes[4..8].copy_from_slice(&(r.ip as u32).to_le_bytes());
-            bytes[16..20].copy_from_slice(&(r.sp as u32).to_le_bytes());
+            bytes[0..4].copy_from_slice(&p32(0x2000_0000u32 | 0x3));
+            bytes[4..8].copy_from_slice(&p32(r.ip as u32));
+            bytes[16..20].copy_from_slice(&p32(r.sp as u32));
         }
         Arch::Ppc64 => {
             use scroll::ctx::SizeWith;
             bytes = vec![0u8; md::CONTEXT_PPC64::size_with(&scroll::LE)];
-            bytes[0..8].copy_from_slice(&(0x0100_0000u64 | 0x3).to_le_bytes());
-            bytes[8..16].copy_from_slice(&r.ip.to_le_bytes());
-            bytes[32..40].copy_from_slice(&r.sp.to_le_bytes());
+            bytes[0..8].copy_from_slice(&p64(0x0100_0000u64 | 0x3));
+            bytes[8..16].copy_from_slice(&p64(r.ip));
+            bytes[32..40].copy_from_slice(&p64(r.sp));
         }
         Arch::Sparc => {
             use scroll::ctx::SizeWith;
             bytes = vec![0u8; md::CONTEXT_SPARC::size_with(&scroll::LE)];
-            bytes[0..4].copy_from_slice(&(0x1000_0000u32 | 0x3).to_le_bytes());
-            bytes[120..128].copy_from_slice(&r.sp.to_le_bytes());
-            bytes[272..280].copy_from_slice(&r.ip.to_le_bytes());
+            bytes[0..4].copy_from_slice(&p32(0x1000_0000u32 | 0x3));
+            bytes[120..128].copy_from_slice(&p64(r.sp));
+            bytes[272..280].copy_from_slice(&p64(r.ip));
         }
         Arch::Arm64 => {
             let mut c = md::CONTEXT_ARM64::default();
@@ -446,20 +449,26 @@ fn context_section(arch: Arch, r: &Regs, rng: &mut Xoshiro) -> Section {
             c.iregs[30] = r.lr;
             c.iregs[19] = rng.next_u64();
             bytes = vec![0u8; 1024];
-            let n = bytes.pwrite_with(c, 0, scroll::LE).expect("ctx");
+            let n = bytes.pwrite_with(c, 0, se).expect("ctx");
             bytes.truncate(n);
         }
     }
     Section::with_endian(Endian::Little).append_bytes(&bytes)
 }
 
+thread_local! {
+    static BIG_ENDIAN: std::cell::Cell<bool> = const { std::cell::Cell::new(false) };
+}
+
 fn put_word(stack: &mut [u8], off: usize, w: u64, val: u64) {
+    let be = BIG_ENDIAN.with(|b| b.get());
     if w == 4 {
         if off + 4 <= stack.len() {
-            stack[off..off + 4].copy_from_slice(&(val as u32).to_le_bytes());
+            let v = val as u32;
+            stack[off..off + 4].copy_from_slice(&if be { v.to_be_bytes() } else { v.to_le_bytes() });
         }
     } else if off + 8 <= stack.len() {
-        stack[off..off + 8].copy_from_slice(&val.to_le_bytes());
+        stack[off..off + 8].copy_from_slice(&if be { val.to_be_bytes() } else { val.to_le_bytes() });
     }
 }
 
@@ -469,7 +478,17 @@ pub fn gen_world(opts: &WorldOpts) -> World {
     let arch = [Arch::Amd64, Arch::X86, Arch::Arm64, Arch::Arm, Arch::Amd64, Arch::X86, Arch::Arm64, Arch::Arm, Arch::Arm64Old, Arch::Mips, Arch::Ppc, Arch::Ppc64, Arch::Sparc][ch("dump.arch", if opts.all_archs { 13 } else { 8 }) as usize];
     let os = [OsKind::Windows, OsKind::Linux, OsKind::MacOs, OsKind::Android, OsKind::Ios][ch("dump.os", 5) as usize];
     let w = arch.word();
-    let e = Endian::Little;
+    // big-endian dumps: natural for ppc / sparc / mips, occasionally for the others
+    let be = opts.all_archs
+        && match arch {
+            Arch::Ppc | Arch::Ppc64 | Arch::Sparc | Arch::Mips => chance("dump.big_endian", 1, 2),
+            _ => chance("dump.big_endian.rare", 1, 16),
+        };
+    BIG_ENDIAN.with(|b| b.set(be));
+    if be {
+        probe("e4.big_endian");
+    }
+    let e = if be { Endian::Big } else { Endian::Little };
     let adv = opts.adversarial;
 
     // modules
@@ -671,7 +690,7 @@ pub fn gen_world(opts: &WorldOpts) -> World {
         } else {
             sbase
         };
-        let ctx = context_section(arch, &r, &mut rng);
+        let ctx = context_section(arch, &r, &mut rng, be);
         let memory = Memory::with_section(Section::with_endian(e).append_bytes(&stack), mem_addr);
         if use_mem64 {
             // Memory64 regions live in one trailing blob and cannot be cited: the thread's
@@ -902,6 +921,7 @@ pub fn gen_world(opts: &WorldOpts) -> World {
         "crashing_thread": crashing,
         "streams_mask": streams,
         "memory64": use_mem64,
+        "big_endian": be,
         "dump_len": dump.len(),
     });
     World {
@@ -969,7 +989,8 @@ pub fn storage_fault(dump: &mut Vec<u8>) -> &'static str {
 }
 
 fn rd32(b: &[u8], at: usize) -> Option<u32> {
-    b.get(at..at + 4).map(|x| u32::from_le_bytes(x.try_into().unwrap()))
+    let be = BIG_ENDIAN.with(|b| b.get());
+    b.get(at..at + 4).map(|x| if be { u32::from_be_bytes(x.try_into().unwrap()) } else { u32::from_le_bytes(x.try_into().unwrap()) })
 }
 
 /// Point the exception stream's thread_context at the context of thread `tid` (minidump-synth
@@ -995,8 +1016,9 @@ fn patch_exception_context(dump: &mut [u8], tid: u32) {
         if rd32(dump, t) == Some(tid) {
             let (Some(size), Some(rva)) = (rd32(dump, t + 40), rd32(dump, t + 44)) else { return };
             if exc + 168 <= dump.len() {
-                dump[exc + 160..exc + 164].copy_from_slice(&size.to_le_bytes());
-                dump[exc + 164..exc + 168].copy_from_slice(&rva.to_le_bytes());
+                let be = BIG_ENDIAN.with(|b| b.get());
+                dump[exc + 160..exc + 164].copy_from_slice(&if be { size.to_be_bytes() } else { size.to_le_bytes() });
+                dump[exc + 164..exc + 168].copy_from_slice(&if be { rva.to_be_bytes() } else { rva.to_le_bytes() });
             }
             return;
         }
